@@ -231,6 +231,18 @@ static void checkLookups(const AnnotatorPtr &ann, const ModelPtr &m, const std::
     auto slots = collect(m);
     auto counts = idCounts(slots);
     std::string tag = sharedImport ? ":shared-import-source" : "";
+    // every other time itemCount() is the FIRST query after the change (each lookup has to notice a stale index itself)
+    // (which times: decided by the history text, so that a case stays a pure function of seed and index)
+    if (fnv1a(replay) % 2 == 0) {
+        for (const auto &kv : counts) {
+            size_t n = ann->itemCount(kv.first);
+            if (n != static_cast<size_t>(kv.second)) {
+                viol("C13", "lookup:itemCount()-disagrees:first-query:" + after + tag, "id " + kv.first + ": itemCount=" + std::to_string(n) + " traversal=" + std::to_string(kv.second), replay);
+            }
+            break; // one id is enough: the call refreshes the index for the others
+        }
+        stat("item_count_first_queries");
+    }
     // ids()
     auto ids = ann->ids();
     std::set<std::string> idSet(ids.begin(), ids.end());
